@@ -3,6 +3,6 @@ CONTRACTS = list(_C)
 
 MANIFEST = {
     "category": "proof",
-    "text": "compute_deviation is verified for any number of stations: each leg's direction is the mean of its two station directions when the leg has length, the station direction when it has none (trigonometry uninterpreted, real arithmetic); Drillhole.locations is verified to start at the collar and advance each leg by its depth difference along its direction (prefix-sum reasoning), and to cache its result; the collar and surveys setters are verified (abstract execution, every path) to reset the cached path. desurvey (station lookup, continuity, extrapolation) and the placement of depth/interval data by add_data are bounded stand-ins on real drillholes against a reference path written from the property text. Round-5 addition: the add_data sequences are also run with the file closed and re-opened before each call (nothing cached: lazy loaders are exercised).",
+    "text": "compute_deviation is verified for any number of stations: each leg's direction is the mean of its two station directions when the leg has length, the station direction when it has none (trigonometry uninterpreted, real arithmetic); Drillhole.locations is verified to start at the collar and advance each leg by its depth difference along its direction (prefix-sum reasoning), and to cache its result; the collar and surveys setters are verified (abstract execution, every path) to reset the cached path. desurvey (station lookup, continuity, extrapolation) and the placement of depth/interval data by add_data are bounded stand-ins on real drillholes against a reference path written from the property text. Round-5 addition: the add_data sequences are also run with the file closed and re-opened before each call (nothing cached: lazy loaders are exercised). Round-6 additions: text depth logs (SortDepths contract: text logs follow the same permutation) and their stand-in sequences.",
     "note": "floats as reals; np.divide(where=) garbage treated as arbitrary finite reals; cos/sin/deg2rad/modulo uninterpreted; searchsorted-based lookup, tolerance matching (match_values/merge_arrays) and sort_depths are only in the bounded part.",
 }
